@@ -9,7 +9,7 @@
 #define VG_CHUNKS 2     /* BOUND: print_archived_file sees at most this many data chunks */
 #define VG_ANSWERS 2    /* BOUND: confirm_file_overwrite asks at most this many times, answers of at most VG_ANSWER_LEN characters */
 #define VG_ANSWER_LEN 3
-unsigned vg_chunks, vg_chars;
+unsigned vg_chunks, vg_chars, vg_lines;
 
 static void progress_callback(unsigned int block, unsigned int num_blocks, void *data);
 
@@ -76,20 +76,86 @@ int vg_getchar(void)
 	__CPROVER_assume(c >= -1 && c <= 255);
 #ifdef VG_BOUND_ANSWERS
 	if (vg_chars >= VG_ANSWER_LEN - 1) c = (c < 0) ? c : '\n';
-	vg_chars = (c == '\n') ? 0 : vg_chars + 1;
+	if (vg_chars == 0 && vg_lines >= VG_ANSWERS - 1) {
+		/* last permitted prompt: the answer is one confirm_file_overwrite accepts (or stdin closes) */
+		__CPROVER_assume(c < 0 || c == 'y' || c == 'Y' || c == 'n' || c == 'N' || c == 'a' || c == 'A' || c == 's' || c == 'S' || c == '\n');
+	}
+	if (c == '\n') { vg_chars = 0; vg_lines++; } else vg_chars++;
 #endif
 	return c;
 }
 #undef getchar
 #define getchar vg_getchar
 
-#include "src/extract.c"
+/* Heap strings.  A malloc'd object of SYMBOLIC size makes file_full_path undecidable in practice (SAT out of
+   memory at 12 GB, measured); with a constant-capacity block it takes 1.5 s.  So the block has the constant
+   capacity VG_ALLOC, the size the code asked for is kept in ghost state, and strcat - the only way
+   file_full_path writes beyond result[0] - is the plain C definition plus the obligation that the result fits
+   the size that was ASKED for.
+   ASSUME: malloc(n) returns NULL or a fresh block of n bytes; strcat appends src including its NUL to dst;
+   strdup returns NULL or a fresh copy (constant capacity VG_ALLOC here: accesses of make_parent_directories
+   beyond the copy's terminator but inside the capacity would go unnoticed - that group does not claim C08). */
+#define VG_ALLOC (3 * VG_S + 2)
+char *vg_alloc_ptr;
+size_t vg_alloc_size;
+static void *vg_malloc(size_t n)
+{
+	char *p;
+	__CPROVER_assert(n >= 1 && n <= VG_ALLOC, "C08 malloc: requested size is that of extract_path + '/' + path + filename + NUL");
+	if (nondet_bool()) return NULL;
+	p = malloc(VG_ALLOC);
+	__CPROVER_assume(p != NULL);
+	vg_alloc_ptr = p; vg_alloc_size = n;
+	return p;
+}
+static char *vg_strcat(char *dst, const char *src)
+{
+	size_t d = strlen(dst), n = strlen(src), k;
+	if (dst == vg_alloc_ptr) {
+		__CPROVER_assert(d + n + 1 <= vg_alloc_size, "C08 strcat: the result fits the size malloc was asked for");
+	}
+	for (k = 0; k <= n; k++) dst[d + k] = src[k];
+	return dst;
+}
+static char *vg_strdup(const char *src)
+{
+	size_t n = strlen(src), k; char *p;
+	__CPROVER_assert(n + 1 <= VG_ALLOC, "strdup stand-in: capacity suffices");
+#ifndef VG_ALLOW_SLASHES
+	/* ASSUME (exclusion, reported): the path handed to make_parent_directories contains a character other
+	   than '/'.  For "" or "///" the function computes path - 1 (p = path + strlen(path) - 1, and --p in the
+	   strip loop): undefined pointer arithmetic, on which CBMC's pointer order then lets *p be read and the
+	   strip loop run away.  Real machines compare false and skip the loop; nothing is printed in that case.
+	   Group print.make_parent_directories@slashes runs without this exclusion and shows the finding. */
+	{
+		_Bool other = 0;
+		for (k = 0; k < n; k++) if (src[k] != '/') other = 1;
+		__CPROVER_assume(other);
+	}
+#endif
+	if (nondet_bool()) return NULL;
+	p = malloc(VG_ALLOC);
+	__CPROVER_assume(p != NULL);
+	for (k = 0; k <= n; k++) p[k] = src[k];
+	return p;
+}
+#define malloc vg_malloc
+#define strcat vg_strcat
+#undef strdup
+#define strdup vg_strdup
 
-static void vg_begin(void) { vg_quiet = 0; vg_sunk = 0; vg_raw_sunk = 0; vg_safe_sunk = 0; vg_members = 0; vg_chunks = 0; vg_chars = 0; vg_any_options(); }
+#include "src/extract.c"
+#undef malloc
+#undef strcat
+#undef strdup
+
+static void vg_begin(void) { vg_quiet = 0; vg_sunk = 0; vg_raw_sunk = 0; vg_safe_sunk = 0; vg_members = 0; vg_chunks = 0; vg_chars = 0; vg_lines = 0; vg_any_options(); }
 #define VG_END(name) do { __CPROVER_assert(vg_raw_sunk == 0 && vg_quiet == 0, "C18 " name ": the raw (file data) sink is not used"); VG_CANARY(name); } while (0)
 
 /* a file name as file_full_path can return it: any bytes, up to 3 * VG_S + 1 */
+#ifndef VG_NAME_MAX
 #define VG_NAME_MAX (3 * VG_S + 1)
+#endif
 char vg_name[VG_NAME_MAX + 1];
 static char *vg_any_name(void) { __CPROVER_havoc_object(vg_name); vg_name[VG_NAME_MAX] = 0; return vg_name; }
 /* a status / operation text: the callers pass program literals ("Tested", "CRC error", "Melted", "Failure",
@@ -120,7 +186,8 @@ void h_file_full_path(void)
 	vg_begin(); h = vg_any_header();
 	r = file_full_path(h, &vg_options);
 	for (k = 0; r[k] != 0; k++) { }
-	__CPROVER_assert(k <= VG_NAME_MAX, "file_full_path: result is NUL-terminated and no longer than extract_path + '/' + path + filename");
+	__CPROVER_assert(r == vg_alloc_ptr && k + 1 <= vg_alloc_size && k <= VG_NAME_MAX,
+	                 "file_full_path: result is a NUL-terminated string inside the block that was asked for");
 	free(r);
 	VG_END("file_full_path");
 }
